@@ -84,10 +84,27 @@ void mc_harness_main(int argc, char** argv) {
     mc_log_sync(1);
     for (int i = 0; i < nprog; i++) mc_thread_create(&t[i], NULL, body, &prog[i]);
     for (int i = 0; i < nprog; i++) mc_thread_join(t[i], NULL);
+    /* every thread has returned, so nobody waits any more: a final notify(count = 2^32-1) on each address used must find
+       nothing to wake (return 0); it walks the bucket chain and the wait list of that address, so a node or wait record
+       that was freed but left linked is touched by the protocol itself (AddressSanitizer reports it inside futex.c/map.c) */
+    for (int i = 0; i < nprog; i++) {
+        U32 eff = prog[i].addr + prog[i].off;
+        int seen = 0;
+        for (int j = 0; j < i; j++) if (prog[j].addr + prog[j].off == eff) seen = 1;
+        if (!seen) mc_obs("p %u %u", eff, m_no0(&parent, eff, 0xFFFFFFFFu));
+    }
 }
 
 /* canonical end state: the futex map (bucket, key, number of wait records on that key's list), sorted by construction
  * (buckets ascending; chain order within a bucket is reported as found) */
+/* the walk below must not itself trip over a dangling pointer left in the map: in ASan builds freed memory is poisoned and
+   is reported as "[dangling ...]" in the end state (the oracle judges it) instead of being dereferenced */
+int __asan_address_is_poisoned(void const volatile* addr) __attribute__((weak));
+static int dangling(const void* p, size_t n) {
+    if (!__asan_address_is_poisoned) return 0;
+    return __asan_address_is_poisoned(p) || __asan_address_is_poisoned((const char*)p + n - 1);
+}
+
 MC_NO_TSAN void mc_harness_end(int blocked) {
     Map* map = (Map*)parent.m0->futex;
     int nodes = 0;
@@ -96,7 +113,11 @@ MC_NO_TSAN void mc_harness_end(int blocked) {
     for (size_t b = 0; b < map->bucketCount; b++) {
         for (MapNode* n = map->buckets[b]; n; n = (MapNode*)n->link.next) {
             int len = 0;
-            for (ListLink* l = (ListLink*)n->value; l && len < 100; l = l->next) len++;
+            if (dangling(n, sizeof *n)) { mc_end("[dangling map node in bucket %u]", (unsigned)b); nodes++; break; }
+            for (ListLink* l = (ListLink*)n->value; l && len < 100; l = l->next) {
+                if (dangling(l, sizeof *l)) { mc_end("[dangling wait record on key %u]", n->key); break; }
+                len++;
+            }
             mc_end("[b%u k%u n%d]", (unsigned)b, n->key, len);
             if (++nodes > 50) { mc_end("..."); return; }
         }
